@@ -96,6 +96,20 @@ def _main(args) -> int:
     print("check %s tier=%s VERIF_SEED=%d runs=%d jobs=%d tree=%s" % (prop, args.tier, base, n, args.jobs, runner.tree_hash()))
     sys.stdout.flush()
     t0 = time.monotonic()
+    # ---- regression replays: the minimised histories of every defect repaired so far are
+    # re-executed first; a repaired defect that returns is reported at once (a 'fixed' entry
+    # in known_findings.json suppresses nothing)
+    import glob
+
+    reg_files = sorted(glob.glob(os.path.join(VERIF, "regressions", prop + "-*.json")))
+    reg_hits = []
+    for path, (ok, want, got) in zip(reg_files, runner.pmap(lambda f: impl.replay(prop, f), reg_files, args.jobs)):
+        if ok:
+            reg_hits.append((path, want))
+    for path, want in reg_hits:
+        print("violation: %s (a repaired defect is back: regression replay reproduces)" % want)
+        print("VIOLATION property=%s replay=%s" % (prop, path))
+    sys.stdout.flush()
     ctx = impl.new_context(prop, args.tier)
     stop = {"flag": False}
 
@@ -161,11 +175,13 @@ def _main(args) -> int:
     ev = impl.evidence(prop, args.tier, base, done, selftest, wall, t_runs, len(new), [k.get("signature") for k, _ in listed], args.jobs)
     if hasattr(ctx, "stats"):
         ev["coverage"]["goldens"] = dict(ctx.stats)
+    ev["coverage"]["regression_replays"] = {"executed": len(reg_files), "reproduced": len(reg_hits)}
+    ev["violations"] = len(new) + len(reg_hits)
     os.makedirs(EVIDENCE, exist_ok=True)
     with open(os.path.join(EVIDENCE, prop + ".json"), "w") as f:
         json.dump(ev, f, indent=1, sort_keys=True)
     print("%s: runs=%d evaluations=%d distinct_nontrivial=%d violations=%d known=%d wall=%.1fs" % (prop, len(done), ev["coverage"]["evaluations"], ev["coverage"]["distinct_nontrivial"], len(new), len(listed), wall))
-    return 1 if new else 0
+    return 1 if (new or reg_hits) else 0
 
 
 if __name__ == "__main__":
